@@ -155,6 +155,11 @@ def crosscut_schemas():
             {"enum": [1, 11], "maximum": 10}, {"type": "integer", "enum": [3, 4], "multipleOf": 2},
             {"type": "array", "items": {"type": "integer", "enum": [1, 11], "maximum": 10}},
             {"type": "object", "properties": {"a": {"type": "integer", "enum": [1, 11], "maximum": 10}}}]
+    # ranges of a single value, and ranges without any value (valid schemas all the same)
+    out += [{"type": "integer", "minimum": 5, "maximum": 5}, {"type": "number", "minimum": 1.5, "maximum": 1.5},
+            {"type": "string", "minLength": 2, "maxLength": 2}, {"type": "array", "minItems": 1, "maxItems": 1},
+            {"type": "integer", "exclusiveMinimum": 1, "exclusiveMaximum": 2}, {"type": "number", "minimum": 3, "maximum": 2},
+            {"type": "string", "minLength": 1, "maxLength": 0}, {"type": "integer", "minimum": 5, "exclusiveMaximum": 5}]
     # an explicit type next to a combinator
     for kw in ("anyOf", "oneOf", "allOf"):
         out.append({"type": "integer", kw: [{"minimum": 2}, {"maximum": 3}]})
@@ -182,6 +187,10 @@ def crosscut_schemas():
             {"type": "object", "properties": {"a": {"type": "integer"}}, "dependentRequired": {"a": ["zz"]}, "additionalProperties": True},
             {"type": "object", "properties": {"a": {"type": "integer"}}, "dependentRequired": {"a": ["zz"]}, "additionalProperties": False},
             {"dependentRequired": {"a": ["b"]}},
+            {"type": "object", "properties": {"a": {"type": "integer"}}, "dependentRequired": {"a": ["zz"]},
+             "additionalProperties": {"type": "integer", "minimum": 100}},
+            {"type": "object", "properties": {"a": {"type": "integer"}}, "dependentRequired": {"zz": ["a"]},
+             "additionalProperties": {"type": "string"}},
             {"type": "object", "properties": {"a": {"type": "integer"}, "b": {"type": "integer"}}, "dependentRequired": {"a": ["b", "zz"]}},
             {"type": "object", "properties": {"a": {"type": "integer"}, "b": {"type": "integer"}}, "dependentRequired": {"a": []}}]
     return out
@@ -343,6 +352,9 @@ def _subclass(schema, inst, enc, kw):
 def run_shard(shard, tier):
     _, lo, hi = shard
     acc = Acc()
+    # history prefix: a parser with its own type_map was used earlier in the process (the override is that parser's alone)
+    JsonSchemaParser({"type": "object", "properties": {"d": {"type": "string", "format": "date"}, "n": {"type": "integer"}}},
+                     type_map={"date": str, "date-time": str, "integer": str, "boolean": str})()
     for schema in schemas(tier)[lo:hi]:
         sj = json.dumps(schema, sort_keys=True)
         acc.states += 1
@@ -369,7 +381,12 @@ def run_shard(shard, tier):
         st, t = call_guarded(lambda: JsonSchemaParser(schema)(), wall_s=2.0)
         if st != "ok":
             acc.outcomes["build-fails"] += 1
-            viol("build-" + type(t).__name__, f"building a type raised {type(t).__name__}: {short(t, 100)}")
+            tag = ""
+            if type(t).__name__ == "ConfigError" and not any(_valid(schema, i) for i in INSTANCES + [5, 1.5, "ab", [1]]) and \
+                    any(w in str(t) for w in ("must >", "must greater", "must <", "max_length", "min_length")):
+                # sub-class of the recorded finding: no instance satisfies the schema, and Rule refuses such a range
+                tag = "@unsatisfiable-range"
+            viol("build-" + type(t).__name__ + tag, f"building a type raised {type(t).__name__}: {short(t, 100)}")
             continue
         validator = jsonschema.Draft202012Validator(schema)
         for inst in INSTANCES:
